@@ -4,6 +4,7 @@
 import SodModel.Trace
 import SodModel.Layout
 import SodModel.Tags
+import SodModel.Codec
 namespace Sod
 
 /-! ### the concrete environment of the harness type `T` -/
@@ -494,6 +495,18 @@ def DState.exec (d : DState) (op : String) (args : List String) (impl : String) 
     let n := "main.T".toList
     let n := if d.lower then Layout.camelToSnake n else n
     pure (d, { txt := hex (n.map Char.toNat) })
+  | "simg", [] =>
+    -- the bytes of the real schema.json (uuids replaced by handles), read by the model's own
+    -- JSON reader and compared with the image the model holds for the directory
+    match d.c.disk.schema with
+    | none => pure (d, { txt := "none" })
+    | some img =>
+      match (unhex impl).bind Json.parse with
+      | none => pure (d, { txt := "model holds a schema image; the file is absent or not JSON", agree := some false })
+      | some j =>
+        match Codec.checkSchema img j with
+        | .ok () => pure (d, { txt := "same", agree := some true })
+        | .error m => pure (d, { txt := "schema.json differs from the model's image: " ++ m, agree := some false })
   | "fsops", [] =>
     let delta := d.c.log.drop d.logMark
     let txt := " ".intercalate (delta.map printFsOp)
